@@ -177,6 +177,39 @@ def inAddrArpa (v : IP) : Name :=
   (toString (bAt v 3).toNat ++ "." ++ toString (bAt v 2).toNat ++ "." ++ toString (bAt v 1).toNat ++ "."
     ++ toString (bAt v 0).toNat ++ ".in-addr.arpa.").toList
 
+/-- `isDomainNameLabelSpecial`. -/
+def isLabelSpecial (b : UInt8) : Bool :=
+  b == 46 || b == 32 || b == 39 || b == 64 || b == 59 || b == 40 || b == 41 || b == 34 || b == 92
+
+def digitChar (n : Nat) : Char := Char.ofNat (48 + n)
+
+/-- one label byte as `dns.UnpackDomainName` renders it: special characters
+get a backslash, bytes outside `' '..'~'` become `\DDD`, the rest is literal. -/
+def presentByte (b : UInt8) : Name :=
+  if isLabelSpecial b then ['\\', Char.ofNat b.toNat]
+  else if b.toNat < 32 || b.toNat > 126 then
+    ['\\', digitChar (b.toNat / 100), digitChar (b.toNat / 10 % 10), digitChar (b.toNat % 10)]
+  else [Char.ofNat b.toNat]
+
+def presentLabel (l : List UInt8) : Name := l.flatMap presentByte ++ ['.']
+
+/-- presentation form of an uncompressed wire name given as its label list. -/
+def presentLabels (ls : List (List UInt8)) : Name := ls.flatMap presentLabel
+
+/-- `dns.UnpackDomainName` (the root is "."). -/
+def present (ls : List (List UInt8)) : Name := if ls.isEmpty then ['.'] else presentLabels ls
+
+/-- label list of an uncompressed wire name (`none`: truncated, compression
+pointer, or missing terminator); `fuel` bounds the walk. -/
+def parseWireName : Nat → List UInt8 → Option (List (List UInt8))
+  | 0, _ => none
+  | _, [] => none
+  | fuel + 1, c :: rest =>
+    if c == 0 then (if rest.isEmpty then some [] else none)
+    else if c.toNat ≥ 64 then none
+    else if rest.length < c.toNat then none
+    else (parseWireName fuel (rest.drop c.toNat)).map fun t => rest.take c.toNat :: t
+
 /-- `dns.Fqdn` on names without escapes, then `dns.CanonicalName` + `strings.ToLower`. -/
 def canonical (s : Name) : Name :=
   lower (if hasSuffix s ['.'] then s else s ++ ['.'])
@@ -310,6 +343,7 @@ structure Down where
   mark : Mark
   ans : List RR
   soas : List (Nat × Nat)  -- (Hdr.Ttl, Minttl) of the SOA records in Authority, in order
+  extra : List RR := []    -- Additional section without the OPT (which, if `opt`, comes last)
 deriving Repr
 
 /-- what the internal queryer returns for the secondary lookup. -/
@@ -317,6 +351,8 @@ structure AResp where
   err : AErr
   rcode : Nat
   ans : List RR
+  ns : List RR := []       -- Authority of the A response (SOA = kind `s`, OPT = kind `O`)
+  extra : List RR := []    -- Additional of the A response (may hold its own OPT, kind `O`)
 deriving Repr
 
 structure Query where
@@ -328,6 +364,10 @@ structure Query where
   qtype : Nat
   qname : Name
   workExhausted : Bool     -- an enforcing recursion-work ledger in ctx is exhausted
+  replay : Bool := false   -- `Chain.Replay()`: the worker pass after an inline hand-off
+  wire : Bool := false     -- wire-born request (`Chain.ResetWire`): gates read parsed wire facts
+  twoQ : Bool := false     -- decoded request with a question count other than 1
+  edns : Bool := true      -- the request carries an OPT
 deriving Repr
 
 /-- RFC 8914 codes `isDNSSECFailure` passes through. -/
@@ -363,7 +403,8 @@ inductive Gate | next | ptr | wrap
 deriving Repr, DecidableEq
 
 def gate (c : Cfg) (q : Query) : Gate :=
-  if q.qclass != 1 then .next
+  if q.twoQ && !q.wire then .next
+  else if q.qclass != 1 then .next
   else if q.internal then .next
   else if !q.rd then .next
   else if q.cd then .next
@@ -408,13 +449,20 @@ def dispatch (c : Cfg) (q : Query) (m : Down) : Disp :=
     if had && decide (kept > 0) then .passNative (decide (stripped > 0)) else .trySynth
   else .trySynth
 
+/-- `a.A.To4()`: A rdata is 4 bytes or (as miekg unpacks it from the wire) the
+16-byte `::ffff:a.b.c.d` form; anything else is not an IPv4 address. -/
+def to4 (a : IP) : Option IP :=
+  if a.length == 4 then some a else if isMapped a then some (a.drop 12) else none
+
 /-- the (A, prefix) loop of `synthesise`. -/
 def synthAAAA (c : Cfg) (addrs : List RR) (ttl : Nat) : List RR :=
   c.prefixes.flatMap fun p =>
     addrs.filterMap fun a =>
-      if a.ip.length != 4 then none
-      else if c.shouldExcludeAOnPrefix a.ip p then none
-      else some { kind := '6', ttl := ttl, owner := a.owner, ip := embedIPv4 p.net.ip p.net.bits a.ip }
+      match to4 a.ip with
+      | none => none
+      | some v4 =>
+        if c.shouldExcludeAOnPrefix v4 p then none
+        else some { kind := '6', ttl := ttl, owner := a.owner, ip := embedIPv4 p.net.ip p.net.bits v4 }
 
 inductive Kind
   | none          -- nothing written
@@ -435,13 +483,34 @@ structure Reply where
   aq : Nat := 0        -- qtype of the secondary lookup (0 = none issued)
   ede4 : Bool := false
   ans : List RR := []
+  ns : List RR := []
+  extra : List RR := []
 deriving Repr
+
+/-- the OPT pseudo record as a section entry. -/
+def optRR : RR := { kind := 'O', ttl := 0, owner := "." }
+
+/-- an SOA of the AAAA reply's Authority as a section entry. -/
+def soaRR (s : Nat × Nat) : RR := { kind := 's', ttl := s.1, owner := "z", target := toString s.2 }
+
+def Down.nsRRs (m : Down) : List RR := m.soas.map soaRR
+def Down.extraRRs (m : Down) : List RR := m.extra ++ (if m.opt then [optRR] else [])
+
+/-- `copyExtraNoOPT`. -/
+def copyExtraNoOPT (rrs : List RR) : List RR := rrs.filter (·.kind != 'O')
+
+/-- `appendOPTFrom(src, dst)`: the first OPT of `src.Extra` goes in front. -/
+def appendOPTFrom (src : Down) (dst : List RR) : List RR := if src.opt then optRR :: dst else dst
+
+/-- `req.Extra` (what `SetRcode` / `handlePTR` copy into their reply). -/
+def Query.extraRRs (q : Query) : List RR := if q.edns then [optRR] else []
 
 /-- EDE 4 on a reply that reuses `m`'s OPT after `SetEDE(…ForgedAnswer…)` iff `m.ad`. -/
 def ede4After (m : Down) : Bool := m.opt && (m.ad || m.edes.contains 4)
 
 def passReply (m : Down) (aq : Nat := 0) : Reply :=
-  { kind := .pass, rcode := m.rcode, ad := m.ad, aq := aq, ede4 := m.opt && m.edes.contains 4, ans := m.ans }
+  { kind := .pass, rcode := m.rcode, ad := m.ad, aq := aq, ede4 := m.opt && m.edes.contains 4, ans := m.ans,
+    ns := m.nsRRs, extra := m.extraRRs }
 
 /-- the tail of `WriteMsg` when `synthesise` returned nil: the (already
 filtered) AAAA reply goes out; if filtering copied it, AD is cleared. -/
@@ -451,56 +520,60 @@ def fallbackReply (orig : Down) (copied : Bool) (aq : Nat) : Reply :=
 
 /-- `synthesise` and the tail of `WriteMsg`; `orig` is the already filtered
 message, `copied` says whether filtering made a copy. -/
-def synthesise (c : Cfg) (orig : Down) (copied : Bool) (a : AResp) : Reply :=
+def synthesise (c : Cfg) (q : Query) (orig : Down) (copied : Bool) (a : AResp) : Reply :=
   let fallback (aq : Nat) : Reply := fallbackReply orig copied aq
   match a.err with
   | .noQueryer => fallback 0
-  | .work => { kind := .workFail, rcode := 2, aq := 1 }
-  | .attempt => { kind := .attemptFail, rcode := 2, aq := 1 }
+  | .work => { kind := .workFail, rcode := 2, aq := 1, extra := q.extraRRs }
+  | .attempt => { kind := .attemptFail, rcode := 2, aq := 1, extra := q.extraRRs }
   | .generic => fallback 1
   | .nilResp => fallback 1
   | .none =>
     if a.rcode != 0 then
-      { kind := .abasis, rcode := a.rcode, aq := 1, ede4 := ede4After orig, ans := chainOf a.ans }
+      { kind := .abasis, rcode := a.rcode, aq := 1, ede4 := ede4After orig, ans := chainOf a.ans,
+        ns := a.ns, extra := appendOPTFrom orig (copyExtraNoOPT a.extra) }
     else
       let addrs := addrsOf a.ans
       if addrs.isEmpty then
-        { kind := .abasis, rcode := a.rcode, aq := 1, ede4 := ede4After orig, ans := chainOf a.ans }
+        { kind := .abasis, rcode := a.rcode, aq := 1, ede4 := ede4After orig, ans := chainOf a.ans,
+          ns := a.ns, extra := appendOPTFrom orig (copyExtraNoOPT a.extra) }
       else
         let ttl := synthTTL (negativeAAAATTL orig.soas) (addrs.map (·.ttl))
         let chain := (chainOf a.ans).map fun r => if r.ttl > ttl then { r with ttl := ttl } else r
         let syn := synthAAAA c addrs ttl
         if syn.isEmpty then fallback 1
-        else { kind := .synth, rcode := 0, aq := 1, ede4 := ede4After orig, ans := chain ++ syn }
+        else { kind := .synth, rcode := 0, aq := 1, ede4 := ede4After orig, ans := chain ++ syn,
+               ns := copyExtraNoOPT a.ns, extra := appendOPTFrom orig (copyExtraNoOPT a.extra) }
 
 /-- `responseWriter.WriteMsg`. -/
 def writeMsg (c : Cfg) (q : Query) (m : Down) (a : AResp) : Reply :=
   match dispatch c q m with
   | .passRaw | .passNX | .passDnssec | .passCached | .passLocal => passReply m
-  | .workFail => { kind := .workFail, rcode := 2 }
+  | .workFail => { kind := .workFail, rcode := 2, extra := q.extraRRs }
   | .passNative false => passReply m
   | .passNative true =>
     { kind := .filteredKept, rcode := m.rcode, ad := false, ede4 := ede4After m,
-      ans := (filterUpstreamAAAA c m.ans).1 }
+      ans := (filterUpstreamAAAA c m.ans).1, ns := m.nsRRs, extra := m.extraRRs }
   | .trySynth =>
     if m.rcode == 0 then
       let (fans, _, _, stripped) := filterUpstreamAAAA c m.ans
-      if stripped > 0 then synthesise c { m with ans := fans } true a
-      else synthesise c m false a
-    else synthesise c m false a
+      if stripped > 0 then synthesise c q { m with ans := fans } true a
+      else synthesise c q m false a
+    else synthesise c q m false a
 
 /-- `handlePTR` once a translation target is known. -/
-def ptrReply (qtok : String) (v4 : IP) (a : AResp) : Reply :=
+def ptrReply (q : Query) (qtok : String) (v4 : IP) (a : AResp) : Reply :=
   let cname : RR := { kind := 'c', ttl := ptrSynthTTL, owner := qtok,
                       target := "x:" ++ String.ofList (inAddrArpa v4) }
   match a.err with
-  | .noQueryer => { kind := .ptr, ans := [cname] }
-  | .work => { kind := .workFail, rcode := 2, aq := 12 }
-  | .attempt => { kind := .attemptFail, rcode := 2, aq := 12 }
+  | .noQueryer => { kind := .ptr, ans := [cname], extra := q.extraRRs }
+  | .work => { kind := .workFail, rcode := 2, aq := 12, extra := q.extraRRs }
+  | .attempt => { kind := .attemptFail, rcode := 2, aq := 12, extra := q.extraRRs }
   | .none =>
-    if a.rcode == 0 then { kind := .ptr, aq := 12, ans := cname :: a.ans.filter (·.kind == 'r') }
-    else { kind := .ptr, aq := 12, ans := [cname] }
-  | _ => { kind := .ptr, aq := 12, ans := [cname] }
+    if a.rcode == 0 then
+      { kind := .ptr, aq := 12, ans := cname :: a.ans.filter (·.kind == 'r'), extra := q.extraRRs }
+    else { kind := .ptr, aq := 12, ans := [cname], extra := q.extraRRs }
+  | _ => { kind := .ptr, aq := 12, ans := [cname], extra := q.extraRRs }
 
 /-- `DNS64.ServeDNS` in front of a scripted downstream handler (`down = none`:
 the handler writes nothing). -/
@@ -518,7 +591,7 @@ def serve (c : Cfg) (q : Query) (down : Option Down) (a : AResp) : Reply :=
     | some addr =>
       match ptrV4 c addr with
       | none => nextReply
-      | some v4 => ptrReply "0" v4 a
+      | some v4 => ptrReply q "0" v4 a
   | .wrap =>
     match down with
     | none => { kind := .none }
